@@ -214,7 +214,11 @@ func tryCreateTimestamp(ts []int, nsecs int, overflow bool, offset, sign int64, 
 		ts[3] != date.Hour() || ts[4] != date.Minute() || ts[5] != date.Second() {
 		return Timestamp{}, fmt.Errorf("ion: invalid timestamp")
 	}
-	if ts[0] < 1 || ts[0] > 9999 || offset <= -24*60 || offset >= 24*60 {
+	if offset <= -24*60 || offset >= 24*60 {
+		return Timestamp{}, fmt.Errorf("ion: invalid timestamp")
+	}
+	// The fields are UTC; the year range 0001-9999 applies to the local time they denote.
+	if y := date.Add(time.Duration(offset) * time.Minute).Year(); y < 1 || y > 9999 {
 		return Timestamp{}, fmt.Errorf("ion: invalid timestamp")
 	}
 
